@@ -515,7 +515,10 @@ Fixpoint arr_elems (fuel : nat) (s : str) : option (list (N * str) * str) :=
 Fixpoint arr_set (i : N) (v : str) (l : list (N * str)) : list (N * str) :=
   match l with
   | [] => [(i, v)]
-  | (j, w) :: r => if i =? j then (i, v) :: r else (j, w) :: arr_set i v r
+  | (j, w) :: r =>
+      if i =? j then (i, v) :: r
+      else if i <? j then (i, v) :: (j, w) :: r          (* kept in subscript order *)
+      else (j, w) :: arr_set i v r
   end.
 Definition arr_norm (l : list (N * str)) : list (N * str) :=
   fold_left (fun acc iv => arr_set (fst iv) (snd iv) acc) l [].
@@ -575,12 +578,12 @@ Definition command (fuel : nat) (s : str) : option (list assignment * str) :=
   end.
 
 Fixpoint program (fuel : nat) (s : str) : option (list assignment) :=
-  match fuel with
-  | O => None
-  | S f =>
-      match s with
-      | [] => Some []
-      | _ =>
+  match s with
+  | [] => Some []
+  | _ :: _ =>
+      match fuel with
+      | O => None
+      | S f =>
           match command (S f) s with
           | None => None
           | Some (l, r) =>
